@@ -207,10 +207,10 @@ def main(tier, replay=None):
         "class_views_judged": len(verdicts),
         "casm_compilations": summary.get("compiles", 0),
         "contracts_with_direct_sierra_route": sum(1 for it in items if it.get("direct")),
-        "distinct_nontrivial": sum(1 for it in items if it.get("bytecode", 0) > 0 and sum(it.get("eps", [0])) >= 1),
+        "distinct_nontrivial": sum(1 for it in items if it.get("bytecode", 0) > 0 and sum(it.get("eps") or [0]) >= 1),
         "distinct_nontrivial_rule": "contracts with non-empty bytecode and at least one entry point",
         "builtin_usage": builtins,
-        "entry_point_shapes": sorted({tuple(it.get("eps", [])) for it in items}),
+        "entry_point_shapes": sorted({tuple(it.get("eps") or []) for it in items}),
         "diagnostics": diag,
         "corpus_sources_skipped": summary.get("skipped", 0),
         "tlc_configs": [f"MCClassRoutes_{cfg}", "CasmClassTrace"] + [f"MCClassRoutes_{b}" for b in ROUTE_BUGS]
